@@ -64,6 +64,19 @@ func lemmas() []lemma {
 	ls = append(ls, lemma{"intfloat-mul-zero", decl8 + `(assert (not (and
 		(= (fp.mul RNE ` + f32("a") + ` (_ -zero 8 24)) (ite (bvslt a #x00) (_ +zero 8 24) (_ -zero 8 24)))
 		(= (fp.mul RNE ` + f32("a") + ` (_ +zero 8 24)) (ite (bvslt a #x00) (_ -zero 8 24) (_ +zero 8 24))))))`})
+	for _, inf := range []string{"(_ +oo 8 24)", "(_ -oo 8 24)"} {
+		other := "(_ -oo 8 24)"
+		if inf == "(_ -oo 8 24)" {
+			other = "(_ +oo 8 24)"
+		}
+		ls = append(ls, lemma{"intfloat-special-mul", decl8 + "(define-fun q () (_ FloatingPoint 8 24) (fp.mul RNE " + f32("a") + " " + inf + "))" +
+			"(assert (not (and (= q (fp.mul RNE " + inf + " " + f32("a") + ")) (ite (= a #x00) (fp.isNaN q) (ite (bvslt a #x00) (= q " + other + ") (= q " + inf + "))))))"})
+		ls = append(ls, lemma{"intfloat-special-addsub", decl8 + "(assert (not (and (= (fp.add RNE " + f32("a") + " " + inf + ") " + inf + ") (= (fp.add RNE " + inf + " " + f32("a") + ") " + inf + ")" +
+			" (= (fp.sub RNE " + inf + " " + f32("a") + ") " + inf + ") (= (fp.sub RNE " + f32("a") + " " + inf + ") " + other + "))))"})
+	}
+	ls = append(ls, lemma{"intfloat-special-nan", decl8 + "(assert (not (and (fp.isNaN (fp.mul RNE " + f32("a") + " (_ NaN 8 24))) (fp.isNaN (fp.add RNE (_ NaN 8 24) " + f32("a") + ")) (fp.isNaN (fp.sub RNE " + f32("a") + " (_ NaN 8 24))))))"})
+	ls = append(ls, lemma{"intfloat-div-round-zero", decl8 + `(define-fun q () (_ FloatingPoint 8 24) (fp.roundToIntegral RTZ (fp.div RNE ` + f32("a") + ` (_ +zero 8 24))))
+		(assert (not (ite (= a #x00) (fp.isNaN q) (ite (bvslt a #x00) (= q (_ -oo 8 24)) (= q (_ +oo 8 24))))))`})
 	ls = append(ls, lemma{"intfloat-neg", decl8 + `(assert (not (= (fp.neg ` + f32("a") + `) (ite (= a #x00) (_ -zero 8 24) ` + f32("(bvneg ((_ sign_extend 1) a))") + `))))`})
 	ls = append(ls, lemma{"intfloat-div", decl8 + `(assert (not (= b #x00)))
 		(assert (not (= ((_ fp.to_sbv 16) RTZ (fp.div RNE ` + f32("a") + " " + f32("b") + `)) ((_ sign_extend 7) (bvsdiv ((_ sign_extend 1) a) ((_ sign_extend 1) b))))))`})
